@@ -175,15 +175,34 @@ def run(ctx: core.Ctx):
         shift, scale = rng.choice([(F(0), F(1)), (F(-1), F(2)), (F(3), F(1, 2)), (F(-2), F(4))])
         ag = rng.choice(["Maximum", "BoundedSum", "AlgebraicSum", "NilpotentMaximum", "DrasticSum"])
         im = rng.choice(["Minimum", "AlgebraicProduct", "BoundedDifference", "DrasticProduct", "NilpotentMinimum"])
-        mult = ag == "AlgebraicSum" or im == "AlgebraicProduct"
+        # every second set mixes implications (two rule blocks with different implications concluding on one output), and the
+        # same term may be activated more than once
+        ims = [im] * n if rng.random() < 0.5 else [rng.choice(["Minimum", "AlgebraicProduct", "BoundedDifference", "DrasticProduct", "NilpotentMinimum"]) for _ in range(n)]
+        mult = ag == "AlgebraicSum" or "AlgebraicProduct" in ims
         acts = []
-        for _ in range(n):
-            t = dict(rng.choice(pal))
+        twice = dict(rng.choice(pal)) if n >= 2 and rng.random() < 0.4 else None       # the first two activations are of one term
+        for j_, im in enumerate(ims):
+            t = dict(twice) if twice and j_ < 2 else dict(rng.choice(pal))
             t["p"] = [from_number(shift + scale * F(v)) for v in t["p"]]
             t["h"] = from_number(F(t["h"]))
             acts.append({"term": t, "d": from_number(rng.choice([F(0), F(1, 2), F(1)] if mult else [F(0), F(1, 4), F(1, 2), F(3, 4), F(1)])), "impl": im})
         file_cases.append({"acts": acts, "aggr": ag, "res": rng.choice([1, 2, 4, 5, 8] if mult else [1, 2, 3, 4, 5, 8, 10, 16]),
                            "lo": from_number(shift), "hi": from_number(shift + scale)})
+    # one term activated twice through different implications (two rule blocks concluding on one output), every ordered pair
+    IMPLS = ["Minimum", "AlgebraicProduct", "BoundedDifference", "DrasticProduct", "NilpotentMinimum"]
+    for ia in IMPLS:
+        for ib in IMPLS:
+            if ia == ib:
+                continue
+            for tj, t0 in enumerate(pal):
+                if ctx.quick and (tj + IMPLS.index(ia) + IMPLS.index(ib)) % 2:
+                    continue
+                t = dict(t0)
+                t["p"] = [from_number(F(v)) for v in t["p"]]
+                t["h"] = from_number(F(t["h"]))
+                d2 = F(0) if "AlgebraicProduct" in (ia, ib) else F(1, 4)
+                acts = [{"term": dict(t), "d": from_number(F(1, 2)), "impl": ia}, {"term": dict(t), "d": from_number(d2), "impl": ib}]
+                file_cases.append({"acts": acts, "aggr": rng.choice(["Maximum", "Maximum", "BoundedSum"]), "res": rng.choice([4, 8]), "lo": from_number(F(0)), "hi": from_number(F(1))})
     gfs = ctx.tlc_cases("MC_Integral", write_cfg("File_Integral", head.format(ff="TRUE", e="TRUE", ml=0) + "".join(f"INVARIANT {i}\n" for i in INVS) + "INVARIANT EmitInv\nCHECK_DEADLOCK FALSE\n"),
                         file_cases, label="integral", workers=8, timeout=3000)
     nfile = 0
